@@ -65,18 +65,25 @@ def canary_job():
     return {'chart': ch}, {'name': 'canary', 'N': 3, 'M': 1, 'K': 1, 'cstates': 'all'}
 
 
+class Box:
+    """a plain user object: hashable (by identity) and mutable"""
+
+    def __init__(self):
+        self.n = 0
+
+
 def cond(kind, ident, which, j):
-    old = 'None, None' if which == 'pre' else '__old__.v, len(__old__.L) * 1000 + len(__old__.Q)'
-    return "C(%r, %d, %r, %d, v, len(L) * 1000 + len(Q), %s)" % (kind, ident, which, j, old)
+    old = 'None, None' if which == 'pre' else '__old__.v, len(__old__.L) * 1000 + len(__old__.Q) + __old__.BOX.n * 1000000'
+    return "C(%r, %d, %r, %d, v, len(L) * 1000 + len(Q) + BOX.n * 1000000, %s)" % (kind, ident, which, j, old)
 
 
 def hook(kind, ident):
     if kind == 'entry':
-        return "P('en', %d)\nv = v + 1\nL.append(1)\nQ.append(1)" % ident
+        return "P('en', %d)\nv = v + 1\nL.append(1)\nQ.append(1)\nBOX.n += 1" % ident
     if kind == 'exit':
-        return "P('ex', %d)\nv = v + 1\nL.append(1)\nQ.append(1)" % ident
+        return "P('ex', %d)\nv = v + 1\nL.append(1)\nQ.append(1)\nBOX.n += 1" % ident
     if kind == 'action':
-        return "A(%d)\nv = v + 1\nL.append(1)\nQ.append(1)" % ident
+        return "A(%d)\nv = v + 1\nL.append(1)\nQ.append(1)\nBOX.n += 1" % ident
     return None
 
 
@@ -129,8 +136,8 @@ def harness(g, chart, level, canary=False):
     def C_twin(*a):
         twin.log.append(('cond-evaluated-while-ignored',) + a[:4])
         return True
-    inst = Inst(g, chart, 'id', sc=(sc, trs, cm), extra_context={'C': C, 'v': v0, 'L': [], 'Q': collections.deque()}, tag='chk')
-    twin = Inst(g, chart, 'id', sc=(sc, trs, cm), extra_context={'C': C_twin, 'v': v0, 'L': [], 'Q': collections.deque()}, tag='ign',
+    inst = Inst(g, chart, 'id', sc=(sc, trs, cm), extra_context={'C': C, 'v': v0, 'L': [], 'Q': collections.deque(), 'BOX': Box()}, tag='chk')
+    twin = Inst(g, chart, 'id', sc=(sc, trs, cm), extra_context={'C': C_twin, 'v': v0, 'L': [], 'Q': collections.deque(), 'BOX': Box()}, tag='ign',
                 interp_kwargs={'ignore_contract': True})
     names = cm.names
     hist = []
@@ -256,7 +263,7 @@ def harness(g, chart, level, canary=False):
             if e in lookup and k < len(lookup[e]):
                 v, old = lookup[e][k]
                 conds.append(('probe_sees_current_v', Eq(sv[4], v), info))
-                conds.append(('probe_sees_current_list', Eq(v, v0 + sv[6] // 1000) if sv[6] % 1000 == sv[6] // 1000 else False, info))
+                conds.append(('probe_sees_current_list', Eq(v, v0 + sv[6] % 1000) if _all3(sv[6]) else False, info))
                 if e[3] != 'pre':
                     if old is None:
                         conds.append(('old_available', False, info))
@@ -264,7 +271,7 @@ def harness(g, chart, level, canary=False):
                         conds.append(('old_is_value_at_entry_or_transition_start', Eq(sv[5], old),
                                       lambda e=e: dict(info(), probe=str(e))))
                         conds.append(('old_is_a_snapshot_not_an_alias',
-                                      Eq(old, v0 + sv[7] // 1000) if sv[7] % 1000 == sv[7] // 1000 else False,
+                                      Eq(old, v0 + sv[7] % 1000) if _all3(sv[7]) else False,
                                       lambda e=e: dict(info(), probe=str(e), old_list_and_deque=sv[7])))
                         g.witness('old_seen_by_state' if e[1] == 's' else 'old_seen_by_transition')
         if conds:
@@ -281,6 +288,11 @@ def harness(g, chart, level, canary=False):
     if r == 'go':
         g.witness('all_conditions_hold')
     g.sample({'chart': cm.describe(), 'events': hist, 'failing': failing[:1]})
+
+
+def _all3(code):
+    """the probe packs len(list), len(deque) and box.n into one number: all three must agree"""
+    return code % 1000 == (code // 1000) % 1000 == code // 1000000
 
 
 def _tail_ok(rest, tail, partial):
